@@ -142,7 +142,7 @@ theorem validate_ok {cfg : Cfg} {T : List Row} {out : List Issue} (h : validate 
       · cases h
       · injection h with h
         refine ⟨_, h.symm, ?_, by simp [ho]⟩
-        intro _ hm; funext pr; simp [hm]
+        intro _ hm; funext pr; simp [hm, hasTime]
   · simp only [ho] at h
     injection h with h
     exact ⟨_, h.symm, by simp [ho], fun _ => rfl⟩
@@ -217,7 +217,7 @@ theorem mergeF_origs (l : List (Int × Str × Nat)) : (mergeF l).map (·.2.2) = 
 
 theorem splitFrame_origs (cfg : Cfg) (R : List Row) : ∀ x ∈ splitFrame cfg R, x.2.2 < R.length := by
   intro x hx
-  unfold splitFrame at hx
+  unfold splitFrame ownFrame at hx
   have hb : ∀ pr ∈ enumF 0 R, pr.1 < R.length := by
     rintro ⟨p, r⟩ h
     rw [mem_enumF] at h
@@ -520,7 +520,7 @@ theorem mergeF_id (l : List (Int × Str × Nat)) (h : (l.map (·.1)).Nodup) : me
 theorem mem_splitFrame {cfg : Cfg} {R : List Row} {x : Int × Str × Nat} (h : x ∈ splitFrame cfg R) :
     ∃ r, (x.2.2, r) ∈ enumF 0 R ∧
       (x.2.1 = ownText cfg r ∨ ∃ it ∈ rowItems cfg r, it.delay.isSome ∧ x.2.1 = it.text) := by
-  unfold splitFrame at h
+  unfold splitFrame ownFrame at h
   rcases List.mem_append.mp h with h | h
   · obtain ⟨⟨p, r⟩, hpr, h2⟩ := List.mem_filterMap.mp h
     obtain ⟨t, _, rfl⟩ := Option.map_eq_some_iff.mp h2
@@ -1266,5 +1266,89 @@ string has NO children, while the joined text `(A,B)` parses to one group. -/
 theorem concat_join_counterexample :
     (concatTrees [['(', 'A'], ['B', ')']]).length = 0 ∧ (joinedTree [['(', 'A'], ['B', ')']]).length = 1 ∧
     sameTree [['(', 'A'], ['B', ')']] = false := by decide
+
+/-! ### every row gets its assembled-row checks exactly once: `hasTime` is the single source for both passes -/
+
+/-- the row-level part of `_run_checks` for the row at position `p` -/
+def rowPart (cfg : Cfg) (p : Nat) (r : Row) : List Issue :=
+  (cfg.o.full (rowText cfg r) ++ cfg.o.banned (rowText cfg r)).map fun e => mk e (some p) none (rowText cfg r) (.row p)
+
+/-- how often the row at position `p` gets its assembled-row checks in `_run_checks` -/
+def rowPass (cfg : Cfg) (ol : Nat × Row → Bool) (p : Nat) (r : Row) : Nat :=
+  if reaches cfg r && !ol (p, r) then 1 else 0
+
+/-- how often the row's own text enters the time points the onset pass checks -/
+def onsetPass (cfg : Cfg) (R : List Row) (p : Nat) : Nat := ((ownFrame cfg R).filter fun x => x.2.2 == p).length
+
+theorem checkRow_issues (cfg : Cfg) (ol : Nat × Row → Bool) (p : Nat) (r : Row) :
+    (checkRow cfg (ol (p, r)) p r).issues =
+      cellIssues cfg p r ++ (if rowPass cfg ol p r = 1 then rowPart cfg p r else []) := by
+  unfold checkRow rowPass reaches rowPart
+  cases h1 : anyError (lastCellIssues cfg r) <;> cases h2 : (live cfg r).isEmpty <;> cases h3 : ol (p, r) <;> simp
+
+theorem own_count_aux (cfg : Cfg) (l1 l2 : List Row) (r : Row) (n : Nat) :
+    ((((enumF n (l1 ++ r :: l2)).filterMap fun pr => pr.2.onset.map fun t => (t, ownText cfg pr.2, pr.1)).filter
+      fun x => x.2.2 == n + l1.length).length) = if hasTime r then 1 else 0 := by
+  rw [enumF_append]
+  simp only [enumF, List.filterMap_append, List.filterMap_cons, List.filter_append]
+  have e1 : ((enumF n l1).filterMap fun pr => pr.2.onset.map fun t => (t, ownText cfg pr.2, pr.1)).filter
+      (fun x => x.2.2 == n + l1.length) = [] := by
+    rw [List.filter_eq_nil_iff]
+    intro x hx
+    obtain ⟨pr, hpr, h2⟩ := List.mem_filterMap.mp hx
+    obtain ⟨t, _, rfl⟩ := Option.map_eq_some_iff.mp h2
+    have := enumF_bounds l1 n pr hpr
+    simp; omega
+  have e3 : ((enumF (n + l1.length + 1) l2).filterMap fun pr => pr.2.onset.map fun t => (t, ownText cfg pr.2, pr.1)).filter
+      (fun x => x.2.2 == n + l1.length) = [] := by
+    rw [List.filter_eq_nil_iff]
+    intro x hx
+    obtain ⟨pr, hpr, h2⟩ := List.mem_filterMap.mp hx
+    obtain ⟨t, _, rfl⟩ := Option.map_eq_some_iff.mp h2
+    have := enumF_bounds l2 _ pr hpr
+    simp; omega
+  rw [e1]
+  cases h : r.onset with
+  | none => simpa [hasTime, h] using e3
+  | some t => simp only [hasTime, h, Option.map_some, Option.isSome_some, if_true, List.filter_cons, beq_self_eq_true, e3]; simp
+
+theorem onsetPass_eq (cfg : Cfg) (R : List Row) (p : Nat) (r : Row) (hpr : R[p]? = some r) :
+    onsetPass cfg R p = if hasTime r then 1 else 0 := by
+  obtain ⟨hlt, hget⟩ := List.getElem?_eq_some_iff.mp hpr
+  have hR : R = R.take p ++ r :: R.drop (p + 1) := by rw [← hget]; simp
+  have hlen : (R.take p).length = p := by simp; omega
+  unfold onsetPass ownFrame
+  have := own_count_aux cfg (R.take p) (R.drop (p + 1)) r 0
+  rw [← hR, hlen, Nat.zero_add] at this
+  exact this
+
+/-- `every_row_checked_once`: with the onset mask taken per row, i.e. with `hasTime` as the single "row has a time"
+predicate of both passes, a row that is eligible for assembled-row checks (`reaches`: it has looked-at cells and its last
+one has no error) gets them exactly once: in `_run_checks` iff it has no time, through the onset pass (its text enters
+exactly one time-point contribution) iff it has one.  No row is skipped by both passes, none is checked by both; a row
+that is not eligible gets no row-level check in `_run_checks`. -/
+theorem every_row_checked_once (cfg : Cfg) (R : List Row) (p : Nat) (r : Row) (hpr : R[p]? = some r) :
+    (checkRow cfg (hasTime r) p r).issues =
+      cellIssues cfg p r ++ (if rowPass cfg (fun pr => hasTime pr.2) p r = 1 then rowPart cfg p r else []) ∧
+    onsetPass cfg R p = (if hasTime r then 1 else 0) ∧
+    (reaches cfg r = true → rowPass cfg (fun pr => hasTime pr.2) p r + onsetPass cfg R p = 1) ∧
+    (reaches cfg r = true → (rowPass cfg (fun pr => hasTime pr.2) p r = 1 ↔ hasTime r = false)) ∧
+    (reaches cfg r = false → rowPass cfg (fun pr => hasTime pr.2) p r = 0) := by
+  refine ⟨checkRow_issues cfg (fun pr => hasTime pr.2) p r, onsetPass_eq cfg R p r hpr, ?_, ?_, ?_⟩
+  · intro hr
+    rw [onsetPass_eq cfg R p r hpr]
+    unfold rowPass
+    cases h : hasTime r <;> simp [hr, h]
+  · intro hr
+    unfold rowPass
+    cases h : hasTime r <;> simp [hr, h]
+  · intro hr
+    unfold rowPass
+    simp [hr]
+
+/-- the witness of the old double report again, read with `every_row_checked_once`: under the positional mask the row with
+onset 3.0 is checked by BOTH passes (`rowPass` = `onsetPass` = 1) -/
+example : rowPass (demoCfg false true) (fun pr => decide (pr.1 < 2)) 2 ⟨some 24, [['R']], []⟩ = 1 ∧
+    onsetPass (demoCfg false true) [⟨some 8, [['G']], []⟩, ⟨some 24, [['R']], []⟩, ⟨none, [['B']], []⟩] 1 = 1 := by decide
 
 end HedVerif.C07
